@@ -439,6 +439,9 @@ def shards(tier, seed):
     out += [{'what': 'transform', 'shape': n, 'warm': True} for n in list(AB.LINES) + list(AB.QUADS) + list(AB.CUBICS) + list(AB.ARCS)]
     out += [{'what': 'transform', 'shape': n, 'shift': [3.0e5, 2.0e5], 'warm': w} for n in list(AB.QUADS) + list(AB.CUBICS) for w in (False, True)]
     out += AB.provenance_shards(out, tier, lambda d: d['what'] in ('segment', 'transform') and not d.get('shift') and d.get('scale', 1.0) == 1.0)
+    # arcs constructed with autoscale_radius=False, plain and under the transforms (both tiers)
+    out += [d for d in ({'what': w, 'shape': n, 'prov': 'strict_arc', **({'rot': 0} if w == 'segment' else {})} for n in AB.ARCS for w in ('segment', 'transform'))
+            if d not in out]
     out.append({'what': 'path'})
     out.append({'what': 'joints'})
     out += [dict(d, pprov=pv) for d in ({'what': 'path'}, {'what': 'joints'}) for pv in AB.PATH_PROVENANCES]      # cheap: all of them in both tiers
